@@ -84,6 +84,21 @@ def run_rdf(ctx, bins):
                        name="R2 replay rdf %s [%s]" % (name, bn))
 
 
+def run_dot(ctx, bins):
+    thorough = ctx.tier == "thorough"
+    spec, cfg = "codec/DotAbstract.tla", "codec/DotAbstract.cfg"
+    runs = [("roles", "every pool string in every role", 0, 1), ("shapes", "all graphs on 3 seed-chosen hostile names", 0, 1)]
+    if thorough:
+        runs += [("pairs", "pairs of hostile names, shard %d/4" % i, i, 4) for i in range(4)]
+    else:
+        runs.append(("pairs", "pairs of hostile names, shard %d/16 (by seed)" % (ctx.seed % 16), ctx.seed % 16, 16))
+    for mode, what, shard, nshards in runs:
+        cases = ctx.gen(spec, cfg, subst=dict(MODE=mode, SEED=ctx.seed, SHARD=shard, NSHARDS=nshards, EMIT="TRUE"),
+                        name="R1+R2 gen dot %s (%s)" % (mode, what))
+        for bn, b in bins.items():
+            ctx.replay(b, "codec-dot", cases, name="R2 replay dot %s %s [%s]" % (mode, what, bn))
+
+
 def run(ctx):
     builds = [("default", "")]
     bins = {n: ctx.build(t) for n, t in builds}
@@ -91,6 +106,7 @@ def run(ctx):
     run_graph6(ctx, bins)
     run_mat(ctx, bins)
     run_rdf(ctx, bins)
+    run_dot(ctx, bins)
 
     ctx.assumptions += [
         "TLC/SANY and the CommunityModules Json module are trusted",
